@@ -140,7 +140,13 @@ func c03GenStream(g *gen, o c03StreamOpt) []c03SrcCmd {
 			add(c03GenDataCmd(g, o.keyFilter))
 		}
 	}
-	if o.endMarker != "" {
+	if strings.HasPrefix(o.endMarker, "!") {
+		out = append(out, c03SrcCmd{name: "select", args: [][]byte{[]byte(fmt.Sprint(o.endDb))}}) // a database no filter excludes
+		for k := g.r.Intn(3); k > 0; k-- {
+			out = append(out, c03SrcCmd{name: []string{"flushall", "flushdb"}[g.r.Intn(2)]})
+		}
+		out = append(out, c03SrcCmd{name: o.endMarker[1:]})
+	} else if o.endMarker != "" {
 		out = append(out, c03SrcCmd{name: "select", args: [][]byte{[]byte(fmt.Sprint(o.endDb))}})
 		out = append(out, c03SrcCmd{name: "set", args: [][]byte{[]byte(o.endMarker), []byte("x")}})
 	}
@@ -224,10 +230,33 @@ func c03GenItems(g *gen, n int, illFormed bool, endMarker string) []dbSync.Verif
 			data()
 		}
 	}
-	if endMarker != "" {
+	if strings.HasPrefix(endMarker, "!") {
+		// the stream ends in commands WITHOUT arguments (after a pause long enough for everything before to be flushed)
+		for k := g.r.Intn(3); k > 0; k-- {
+			push([]string{"flushall", "flushdb", "ping"}[g.r.Intn(3)])
+		}
+		push(endMarker[1:])
+	} else if endMarker != "" {
 		push("set", endMarker, "x")
 	}
 	return out
+}
+
+// c03TailGaps: a long pause in front of the trailing run of argument-less commands, none inside it
+func c03TailGaps(gaps string, argless []bool) string {
+	k := 0
+	for k < len(argless) && argless[len(argless)-1-k] {
+		k++
+	}
+	if k == 0 || k == len(argless) {
+		return gaps
+	}
+	b := []byte(gaps)
+	b[len(b)-k] = '2'
+	for i := len(b) - k + 1; i < len(b); i++ {
+		b[i] = '0'
+	}
+	return string(b)
 }
 
 var c0304Scfgs = []string{"cnt=3,size=1000000", "cnt=1024,size=65535", "cnt=6,size=60"}
@@ -259,8 +288,16 @@ var c0304PipeCfgs = []c03PipeCfg{
 func c03GenSendCases(g *gen, n int, resume func() bool, illShare int) {
 	for i := 0; i < n; i++ {
 		ill := illShare > 0 && g.r.Intn(illShare) == 0
-		items := c03GenItems(g, 3+g.r.Intn(22), ill, fmt.Sprintf("__end__%d", i))
-		g.emit("send %s %s %s", c03ScfgStr(g, c0304Scfgs[i%len(c0304Scfgs)], resume()), c03FmtItems(items), c03GenGaps(g, len(items)))
+		end := fmt.Sprintf("__end__%d", i)
+		if i%4 == 3 && !ill {
+			end = "!" + end
+		}
+		items := c03GenItems(g, 3+g.r.Intn(22), ill, end)
+		argless := make([]bool, len(items))
+		for k, it := range items {
+			argless[k] = len(it.Args) == 0 && end[0] == '!'
+		}
+		g.emit("send %s %s %s", c03ScfgStr(g, c0304Scfgs[i%len(c0304Scfgs)], resume()), c03FmtItems(items), c03TailGaps(c03GenGaps(g, len(items)), argless))
 	}
 }
 
@@ -271,7 +308,15 @@ func c03GenPipeCases(g *gen, n int, resume func() bool, resumed bool) {
 		if pc.tdb != -1 && g.r.Intn(10) != 0 {
 			avoid = pc.tdb // deviation D8 (a known finding) would otherwise dominate these scenarios
 		}
-		cmds := c03GenStream(g, c03StreamOpt{n: 3 + g.r.Intn(22), dbs: pc.dbs, keyFilter: pc.keyF, endMarker: fmt.Sprintf("__end__%d", i), endDb: pc.endDb, avoidFirst: avoid})
+		end := fmt.Sprintf("__end__%d", i)
+		if i%4 == 2 {
+			end = "!" + end
+		}
+		cmds := c03GenStream(g, c03StreamOpt{n: 3 + g.r.Intn(22), dbs: pc.dbs, keyFilter: pc.keyF, endMarker: end, endDb: pc.endDb, avoidFirst: avoid})
+		argless := make([]bool, len(cmds))
+		for k, c := range cmds {
+			argless[k] = len(c.args) == 0 && end[0] == '!' && !strings.EqualFold(c.name, "exec") && !strings.EqualFold(c.name, "multi")
+		}
 		startDb, base := 0, 0
 		if resumed && g.r.Intn(2) == 0 {
 			startDb = []int{1, 2, 3}[g.r.Intn(3)]
@@ -280,7 +325,7 @@ func c03GenPipeCases(g *gen, n int, resume func() bool, resumed bool) {
 			}
 			base = 1000 + g.r.Intn(100000)
 		}
-		g.emit("pipe %s %s %d %d %s %s", pc.pcfg, c03ScfgStr(g, c0304Scfgs[i%len(c0304Scfgs)], resume()), startDb, base, c03FmtCmds(cmds), c03GenGaps(g, len(cmds)))
+		g.emit("pipe %s %s %d %d %s %s", pc.pcfg, c03ScfgStr(g, c0304Scfgs[i%len(c0304Scfgs)], resume()), startDb, base, c03FmtCmds(cmds), c03TailGaps(c03GenGaps(g, len(cmds)), argless))
 	}
 }
 
